@@ -18,7 +18,7 @@ Driver for the Cypher write-fragment model (C04, C05, C35).  One request per lin
 Syntax (no spaces inside a token):
   value  N T F I<int> D<16 hex> S<hex utf8>|S- L[v,…] M{k<n>:v,…}
   expr   #<value> | v<n> | v<n>.k<m> | $<n> | [e,…] | {k<n>:e,…} | <op>(e,…)
-         op ∈ add sub mul div mod eq ne lt le gt ge and or not neg isnull notnull ite idx
+         op ∈ add sub mul div mod eq ne lt le gt ge and or xor in coalesce not neg isnull notnull ite idx
          comp(v<n>,l,f,m)
   props  {k<n>:e,…}          labels [n,…]          np (v<n>|_,labels,props)
   clause U(e,v<n>) | MN(v<n>,labels,props) | MR(v<a>,labels,v<r>,<ty>,v<b>,labels) | W(e)
@@ -101,7 +101,8 @@ def varP : P Nat := do expect 'v'; natP
 
 def binOps : List (String × BinOp) :=
   [("add", .add), ("sub", .sub), ("mul", .mul), ("div", .div), ("mod", .mod), ("eq", .eq), ("ne", .ne),
-   ("lt", .lt), ("le", .le), ("gt", .gt), ("ge", .ge), ("and", .and), ("or", .or)]
+   ("lt", .lt), ("le", .le), ("gt", .gt), ("ge", .ge), ("and", .and), ("or", .or),
+   ("xor", .xor), ("in", .inList), ("coalesce", .coalesce)]
 def unOps : List (String × UnOp) :=
   [("not", .not), ("neg", .neg), ("isnull", .isNull), ("notnull", .isNotNull)]
 
